@@ -129,7 +129,8 @@ func (ex *Exec) step(in ssa.Instruction) {
 		r := ex.newRef(ex.cur, "map")
 		mt := x.Type().Underlying().(*types.Map)
 		vs := sortOf(mt.Elem())
-		dn, vn := mapDomName(vs), mapValName(vs)
+		_ = vs
+		dn, vn := mapDomName(mt), mapValName(mt)
 		dom := ex.getHeap(ex.cur, dn, ArrS(SInt, ArrS(SInt, SBool)))
 		ex.setHeap(ex.cur, dn, Store(dom, r, ex.V.constArr(ex, ArrS(SInt, SBool), False)))
 		_ = vn
@@ -234,7 +235,7 @@ func (ex *Exec) stepAlloc(x *ssa.Alloc) {
 		at := et.Underlying().(*types.Array)
 		r := ex.newRef(ex.cur, cellHint(x))
 		es := sortOf(at.Elem())
-		name := heapArrName(es)
+		name := heapArrName(at.Elem())
 		h := ex.getHeap(ex.cur, name, ArrS(SInt, ArrS(SInt, es)))
 		ex.setHeap(ex.cur, name, Store(h, r, ex.V.constArr(ex, ArrS(SInt, es), ex.zeroOf(es))))
 		ex.setVal(x, Val{T: r})
@@ -318,6 +319,7 @@ func (ex *Exec) stepUnOp(x *ssa.UnOp) {
 			ex.assumeAllocated(got.T, got.Ty, ex.cur)
 		}
 		ex.emit(ex.chanEvent(evRecv, v.T, got))
+		ex.timerRecv(v.T)
 		ex.setVal(x, res)
 	case token.XOR:
 		ex.setVal(x, Val{T: ex.D.Fn("bitnot", SInt, v.T)})
@@ -491,6 +493,9 @@ func (ex *Exec) concat(a, b *Term) *Term {
 		prefix = pa
 	}
 	ex.concatPrefix[key] = prefix
+	if !isGroundTerm(c) {
+		return c // under a quantifier: the quantified concat axioms apply
+	}
 	ex.globalFacts = append(ex.globalFacts, Eq(SOff(c), IntLit(0)), Eq(SLen(c), Add(SLen(a), SLen(b))))
 	for i := 0; i < len(prefix) && i < 64; i++ {
 		ex.globalFacts = append(ex.globalFacts, Eq(Select(SArr(c), IntLit(int64(i))), IntLit(int64(prefix[i]))))
@@ -563,8 +568,8 @@ func (ex *Exec) stepLookup(x *ssa.Lookup) {
 	case *types.Map:
 		key := ex.mapKey(idx, t.Key())
 		vs := sortOf(t.Elem())
-		dom := ex.getHeap(ex.cur, mapDomName(vs), ArrS(SInt, ArrS(SInt, SBool)))
-		val := ex.getHeap(ex.cur, mapValName(vs), ArrS(SInt, ArrS(SInt, vs)))
+		dom := ex.getHeap(ex.cur, mapDomName(t), ArrS(SInt, ArrS(SInt, SBool)))
+		val := ex.getHeap(ex.cur, mapValName(t), ArrS(SInt, ArrS(SInt, vs)))
 		okT := And(Neq(base.T, IntLit(0)), Select(Select(dom, base.T), key))
 		okC := ex.D.Fresh(x.Name()+".ok", SBool)
 		ex.assume(Eq(okC, okT))
@@ -609,7 +614,7 @@ func (ex *Exec) stepMapUpdate(x *ssa.MapUpdate) {
 	v := ex.val(x.Value)
 	vs := sortOf(mt.Elem())
 	ex.panicCheck("nilmap", Neq(m.T, IntLit(0)), x.Pos(), "assignment to entry in nil map "+describe(x.Map))
-	dn, vn := mapDomName(vs), mapValName(vs)
+	dn, vn := mapDomName(mt), mapValName(mt)
 	dom := ex.getHeap(ex.cur, dn, ArrS(SInt, ArrS(SInt, SBool)))
 	val := ex.getHeap(ex.cur, vn, ArrS(SInt, ArrS(SInt, vs)))
 	ex.setHeap(ex.cur, dn, ex.named(dn, Store(dom, m.T, Store(Select(dom, m.T), key, True))))
@@ -680,7 +685,7 @@ func (ex *Exec) stepMakeSlice(x *ssa.MakeSlice) {
 	ex.panicCheck("makeslice", And(Le(IntLit(0), ln), Le(ln, cp)), x.Pos(), "makeslice: len out of range")
 	r := ex.newRef(ex.cur, "mkslice")
 	es := sortOf(x.Type().Underlying().(*types.Slice).Elem())
-	name := heapArrName(es)
+	name := heapArrName(x.Type().Underlying().(*types.Slice).Elem())
 	h := ex.getHeap(ex.cur, name, ArrS(SInt, ArrS(SInt, es)))
 	ex.setHeap(ex.cur, name, Store(h, r, ex.V.constArr(ex, ArrS(SInt, es), ex.zeroOf(es))))
 	ex.defVal(x, MkSlice(r, IntLit(0), ln, cp))
@@ -797,8 +802,9 @@ func (ex *Exec) stepNext(x *ssa.Next) {
 		return
 	}
 	vs := sortOf(it.valTy)
-	dom := Select(ex.getHeap(ex.cur, mapDomName(vs), ArrS(SInt, ArrS(SInt, SBool))), it.m.T)
-	val := Select(ex.getHeap(ex.cur, mapValName(vs), ArrS(SInt, ArrS(SInt, vs))), it.m.T)
+	imt := types.NewMap(it.keyTy, it.valTy)
+	dom := Select(ex.getHeap(ex.cur, mapDomName(imt), ArrS(SInt, ArrS(SInt, SBool))), it.m.T)
+	val := Select(ex.getHeap(ex.cur, mapValName(imt), ArrS(SInt, ArrS(SInt, vs))), it.m.T)
 	visited := ex.getHeap(ex.cur, it.name, ArrS(SInt, SBool))
 	okC := ex.D.Fresh(x.Name()+".ok", SBool)
 	k := ex.D.Fresh(x.Name()+".k", SInt)
@@ -825,4 +831,32 @@ func (ex *Exec) stepNext(x *ssa.Next) {
 	ex.wfVal(vC, it.valTy)
 	ex.assumeAllocated(vC, it.valTy, ex.cur)
 	ex.setVal(x, Val{Fs: []Val{{T: okC, Ty: tyBool}, kv, {T: vC, Ty: it.valTy}}, Ty: x.Type()})
+}
+
+// timerRecv: a receive from a timer channel completes no earlier than the
+// channel's deadline; the ghost clock $now (a lower bound of real time, below
+// 2^62 ns while the program runs) advances accordingly.
+func (ex *Exec) timerRecv(ch *Term) {
+	if _, ok := ex.V.db.Ghosts["$deadline"]; !ok {
+		return
+	}
+	dl := Select(ex.getHeap(ex.cur, "$deadline", ArrS(SInt, SInt)), ch)
+	now := ex.getHeap(ex.cur, "$now", SInt)
+	n2 := ex.D.Fresh("$now", SInt)
+	ex.assume(Eq(n2, Ite(Gt(dl, now), dl, now)))
+	ex.assumeHere(Le(n2, BigLit("4611686018427387904")))
+	ex.setHeap(ex.cur, "$now", n2)
+}
+
+// isGroundTerm: no bound variables occur in t.
+func isGroundTerm(t *Term) bool {
+	ok := true
+	t.Walk(func(x *Term) {
+		if len(x.Args) == 0 && !x.IsSym && x.Op != "true" && x.Op != "false" {
+			if _, isInt := x.IntVal(); !isInt {
+				ok = false
+			}
+		}
+	})
+	return ok
 }
